@@ -244,6 +244,10 @@ func mkeq(a, b *T) *T {
 			switch xy[0].Op {
 			case "fn", "closure", "new", "alloc", "addr", "makeslice", "makemap", "makechan", "iface":
 				return tconst(0, nil)
+			case "call":
+				if xy[0].S == "fmt.Errorf" || xy[0].S == "errors.New" {
+					return tconst(0, nil) // a freshly made error is never nil
+				}
 			}
 		}
 	}
